@@ -313,6 +313,12 @@ def parse_time(x, **kwargs):
         return x
     result = parse_iso(x)
     if result is None:
+        if isinstance(x, (str, bytes)):
+            # a time of day on its own, 'HH:MM:SS[.ffffff]' (how JSON writes a time value)
+            try:
+                return datetime.time.fromisoformat(x.decode("utf-8") if isinstance(x, bytes) else x)
+            except ValueError:
+                pass
         raise ValueError(f"Invalid date.")
     return result.time()
 
